@@ -175,7 +175,7 @@ func classifyDirArg(c *Case, what string) string {
 	if c.Spec == nil || c.Via != "" || !strings.HasPrefix(what, "response differs") {
 		return ""
 	}
-	hidden := hiddenDirectiveArgs(c.Spec, fset(c.F))
+	hidden := gatedDirectiveArgs(c.Spec, fset(c.F))
 	if len(hidden) == 0 {
 		return ""
 	}
@@ -817,6 +817,20 @@ func observableRC(model, real []string) []string {
 	return out
 }
 
+func probeDirArgsFix() bool {
+	spec := &Spec{Query: "Query", Directives: []DirSpec{{Name: "paint", Args: []ArgSpec{{"mode", "Mode"}, {"n", "Int"}}}},
+		Types: withBuiltins(
+			TypeSpec{Kind: "enum", Name: "Mode", Req: []string{"a"}, Values: []string{"X", "Y"}},
+			TypeSpec{Kind: "object", Name: "Query", Fields: []FieldSpec{{Name: "ok", Type: "Boolean"}}})}
+	w := &world{orig: expand(spec), F: map[string]bool{}}
+	b, err := buildSchema(spec, w)
+	if err != nil {
+		return false
+	}
+	o := runQuery(b, w, nil, &query{Kind: "probe", Text: "{ __schema { directives { name args { name } } } }"})
+	return strings.Contains(o.Resp, `"name":"n"`) && !strings.Contains(o.Resp, `"name":"mode"`)
+}
+
 // gatedRoots lists the mutation / subscription root types that carry required features F does not enable.
 func gatedRoots(spec *Spec, F []string) []string {
 	var out []string
@@ -1076,6 +1090,12 @@ func (h *harness) replayAPI(c *Case, verbose bool) string {
 func main() {
 	run := hx.Init("C13")
 	h := &harness{run: run, perClass: map[string]int{}}
+	dirArgsFixed = probeDirArgsFix()
+	if dirArgsFixed {
+		run.Count("library:gated-directive-arguments-hidden(fix-05)")
+	} else {
+		run.Count("library:gated-directive-arguments-visible(F-13g-open)")
+	}
 	if run.ModelPath != "" {
 		m, err := hx.StartModel(run.ModelPath)
 		if err != nil {
@@ -1084,6 +1104,9 @@ func main() {
 		}
 		h.model = m
 		defer m.Close()
+		if dirArgsFixed {
+			h.ask("(dirargs filtered)")
+		}
 	}
 	run.SetRule("cases are (schema S accepted by the real schema.New, request feature set F ⊆ features(S) [all subsets], query q) with q an introspection probe (full introspection query, __type(name:) for every type name incl. gated and non-existent ones, types listing, navigation probes through possibleTypes/interfaces) or a type-directed document over S (generated for all features, for F, or for another subset; fragments, type conditions incl. unrelated/gated/unknown types, arguments, variables, directives); distinct = distinct (schema, F, query text); non-trivial = erase(S,F) differs from S (F actually hides a type or a field)")
 
